@@ -8,12 +8,17 @@
    client side (every reader dispatches log batches through _dispatch_log_or_error before it returns anything).
 
    script = [tr, kind, hdr, n0, iraise, steps, ops]
+     tr      "pipe" (socket transports) | "http" (one producer turn per response) | "http_buf" (producers only: the server
+             is configured with max_response_bytes, so _run_http_producer_turn keeps calling process() and buffers the
+             turns into ONE response until the stream finishes or fails -- here the cap is never reached)
      kind    "unary" | "prod" | "exch"
      n0      messages logged by the method body (before the result / before the header and the stream)
      iraise  the method body raises after logging
      steps   process() calls: [pre, act, post]: `pre` messages, then act = "emit" | "emitfin" | "fin" | "raise",
              then (after an emitted batch) `post` messages
-     ops     client operations "t" | "i" | "c" | "x"
+     ops     client operations "t" tick / exchange | "i" iterate to the end | and the three ways of leaving a session:
+             "c" close() | "x" cancel() | "w" leaving the `with` block (__exit__) -- each right after any turn, so that
+             messages logged AFTER the batch of the last turn taken are met only while the session is being left
 
    Designs explored side by side (variable `design`, chosen in Init from the constant set Designs):
      "intended"  the design the clauses are checked on
@@ -37,13 +42,14 @@ SeqsOfLen(S, n) == IF n = 0 THEN {<<>>} ELSE {Append(s, x) : s \in SeqsOfLen(S, 
 StepScripts(kind) == LET E == IF kind = "prod" THEN EndStepsProd ELSE EndStepsExch IN
                      UNION {{Append(s, t) : s \in SeqsOfLen(EmitSteps, n), t \in E} : n \in 0..(MaxSteps - 1)}
                      \cup SeqsOfLen(EmitSteps, MaxSteps)
-OpsFor(kind) == IF kind = "prod" THEN {<<"i">>, <<"t", "c">>, <<"t", "x">>, <<"c">>}
-                ELSE {<<"t", "t", "c">>, <<"t", "c">>, <<"t", "x">>}
+OpsFor(kind) == IF kind = "prod" THEN {<<"i">>, <<"i", "c">>, <<"t", "c">>, <<"t", "x">>, <<"t", "w">>, <<"c">>, <<"x">>, <<"w">>}
+                ELSE {<<"t", "t", "c">>, <<"t", "t", "w">>, <<"t", "c">>, <<"t", "x">>, <<"t", "w">>, <<"t", "t", "x">>, <<"c">>, <<"x">>}
 Scripts ==
   {[tr |-> tp, kind |-> "unary", hdr |-> FALSE, n0 |-> n, iraise |-> ir, steps |-> <<>>, ops |-> <<>>] :
       tp \in {"pipe", "http"}, n \in {0, 1, 2}, ir \in BOOLEAN}
   \cup UNION {{[tr |-> tp, kind |-> kd, hdr |-> hd, n0 |-> n, iraise |-> FALSE, steps |-> st, ops |-> op] :
-                  tp \in {"pipe", "http"}, hd \in BOOLEAN, n \in {0, 2}, st \in StepScripts(kd), op \in OpsFor(kd)} :
+                  tp \in (IF kd = "prod" THEN {"pipe", "http", "http_buf"} ELSE {"pipe", "http"}),
+                  hd \in BOOLEAN, n \in {0, 2}, st \in StepScripts(kd), op \in OpsFor(kd)} :
               kd \in {"prod", "exch"}}
   \cup {[tr |-> tp, kind |-> kd, hdr |-> hd, n0 |-> n, iraise |-> TRUE, steps |-> <<>>, ops |-> IF kd = "prod" THEN <<"i">> ELSE <<"t", "c">>] :
            tp \in {"pipe", "http"}, kd \in {"prod", "exch"}, hd \in BOOLEAN, n \in {0, 1, 2}}
@@ -61,7 +67,8 @@ Init == /\ script \in Scripts
 
 FixLogsBeforeError == design \in {"intended", "onlyE"}
 FixHttpExchangeTail == design \in {"intended", "onlyT"}
-Http == script.tr = "http"
+Http == script.tr \in {"http", "http_buf"}
+Buf == script.tr = "http_buf"
 Prod == script.kind = "prod"
 Unary == script.kind = "unary"
 PastEnd == IF Prod THEN St(0, "fin", 0) ELSE St(0, "emit", 0)
@@ -83,7 +90,7 @@ TurnEm(st, nl, nd) ==
         [] st.act = "raise"   -> <<E0("e")>>)
 TurnWire(st, nl, nd) ==
   CASE st.act = "emit"    -> LogItems(nl, st.pre) \o <<[t |-> "D", n |-> nd + 1]>> \o LogItems(nl + st.pre, st.post)
-                             \o (IF Http THEN <<[t |-> IF Prod THEN "K" ELSE "$"]>> ELSE <<>>)
+                             \o (IF ~Http \/ Buf THEN <<>> ELSE <<[t |-> IF Prod THEN "K" ELSE "$"]>>)
     [] st.act = "emitfin" -> LogItems(nl, st.pre) \o <<[t |-> "D", n |-> nd + 1]>> \o LogItems(nl + st.pre, st.post) \o <<[t |-> "Z"]>>
     [] st.act = "fin"     -> LogItems(nl, st.pre) \o <<[t |-> "Z"]>>
     [] st.act = "raise"   -> (IF FixLogsBeforeError THEN LogItems(nl, st.pre) ELSE <<>>) \o <<[t |-> "E"]>>
@@ -91,6 +98,13 @@ TurnWire(st, nl, nd) ==
 TurnOver(st) == st.act \in {"emitfin", "fin", "raise"}
 AfterTurn(st) == [srv EXCEPT !.k = @ + 1, !.nl = @ + st.pre + st.post, !.nd = IF st.act \in {"emit", "emitfin"} THEN @ + 1 ELSE @,
                              !.pc = IF TurnOver(st) /\ (~Http \/ Prod) THEN "done" ELSE "loop"]
+
+\* http_buf: every turn up to the end of the stream, written into one response
+RECURSIVE BufEm(_, _, _), BufWire(_, _, _)
+BufEm(k, nl, nd) == LET st == StepOf(k) IN
+                    TurnEm(st, nl, nd) \o (IF TurnOver(st) THEN <<>> ELSE BufEm(k + 1, nl + st.pre + st.post, nd + 1))
+BufWire(k, nl, nd) == LET st == StepOf(k) IN
+                      TurnWire(st, nl, nd) \o (IF TurnOver(st) THEN <<>> ELSE BufWire(k + 1, nl + st.pre + st.post, nd + 1))
 
 SInit ==
   /\ srv.pc = "idle" /\ c2s # <<>> /\ Head(c2s).t = "req"
@@ -110,7 +124,11 @@ SInit ==
      ELSE \* buffered messages are flushed into the first stream that opens: the header stream, else the output stream
           LET pre == IF script.hdr THEN L0 \o <<[t |-> "H"]>> ELSE L0
               hev == IF script.hdr THEN <<E0("h")>> ELSE <<>> IN
-          IF Http /\ Prod
+          IF Buf
+          THEN /\ em' = em \o LogEvs(0, n0) \o hev \o BufEm(1, n0, 0)
+               /\ s2c' = s2c \o pre \o BufWire(1, n0, 0)
+               /\ srv' = [srv EXCEPT !.pc = "done"]
+          ELSE IF Http /\ Prod
           THEN LET st == StepOf(1) IN
                /\ em' = em \o LogEvs(0, n0) \o hev \o TurnEm(st, n0, 0)
                /\ s2c' = s2c \o pre \o TurnWire(st, n0, 0)
@@ -254,26 +272,36 @@ CTickHttpExch ==
                   /\ cli' = Done(cli)
   /\ UNCHANGED <<script, design, srv, em>>
 
+\* leaving a session.  close() and __exit__ are the same operation; pipe: end of input, then the output is read to its
+\* end; http: nothing is sent (an exchange session has read every response completely, a producer session may hold a
+\* half-read response that is simply abandoned)
+Quit == rv' = Append(rv, Rv("Q", 0))
 CClose ==
-  /\ cli.pc = "ready" /\ NextOp = "c"
-  /\ IF Http \/ cli.closed
-     THEN cli' = Done(cli) /\ UNCHANGED c2s
-     ELSE c2s' = Append(c2s, [t |-> "ie"]) /\ cli' = [cli EXCEPT !.pc = "drain", !.cur = "c", !.closed = TRUE]
-  /\ UNCHANGED <<script, design, s2c, srv, em, rv>>
+  /\ cli.pc = "ready" /\ NextOp \in {"c", "w"}
+  /\ IF Http
+     THEN /\ cli' = Done(cli) /\ UNCHANGED c2s
+          /\ IF Prod THEN UNCHANGED rv ELSE Quit
+     ELSE IF cli.closed
+     THEN cli' = Done(cli) /\ UNCHANGED c2s /\ Quit           \* already read to its end by the turn that ended it
+     ELSE c2s' = Append(c2s, [t |-> "ie"]) /\ cli' = [cli EXCEPT !.pc = "drain", !.cur = NextOp, !.closed = TRUE] /\ UNCHANGED rv
+  /\ UNCHANGED <<script, design, s2c, srv, em>>
 CCancel ==
   /\ cli.pc = "ready" /\ NextOp = "x"
-  /\ IF Http \/ cli.closed
-     THEN cli' = [Done(cli) EXCEPT !.cancelled = TRUE, !.ended = TRUE] /\ UNCHANGED c2s
-     ELSE /\ c2s' = c2s \o <<[t |-> "cx"], [t |-> "ie"]>>
+  /\ IF Http
+     THEN cli' = [Done(cli) EXCEPT !.cancelled = TRUE, !.ended = TRUE] /\ UNCHANGED <<c2s, rv>>
+     ELSE IF cli.closed
+     THEN cli' = [Done(cli) EXCEPT !.cancelled = TRUE, !.ended = TRUE] /\ UNCHANGED c2s /\ Quit
+     ELSE /\ c2s' = c2s \o <<[t |-> "cx"], [t |-> "ie"]>> /\ UNCHANGED rv
           /\ cli' = [cli EXCEPT !.pc = "drain", !.cur = "x", !.closed = TRUE, !.cancelled = TRUE, !.ended = TRUE]
-  /\ UNCHANGED <<script, design, s2c, srv, em, rv>>
-\* pipe: close / cancel / the close after an error read the output to its end; messages met on the way are delivered
+  /\ UNCHANGED <<script, design, s2c, srv, em>>
+\* pipe: close / cancel / __exit__ / the close after an error read the output to its end; messages met on the way are
+\* delivered to the callback like anywhere else (StreamSession._drain_output)
 CDrain ==
   /\ cli.pc = "drain" /\ s2c # <<>>
   /\ s2c' = Tail(s2c)
   /\ LET x == Head(s2c) IN
      CASE x.t = "L" -> See("L", x.n) /\ UNCHANGED cli
-       [] x.t = "Z" -> cli' = Done(cli) /\ UNCHANGED rv
+       [] x.t = "Z" -> cli' = Done(cli) /\ (IF cli.cur \in {"c", "x", "w"} THEN Quit ELSE UNCHANGED rv)
        [] OTHER     -> UNCHANGED <<cli, rv>>
   /\ UNCHANGED <<script, design, c2s, srv, em>>
 
@@ -289,6 +317,7 @@ Inv_ExactlyOnceNoDuplicate == design = "intended" => ExactlyOnceNoDuplicate(em, 
 Inv_OnlyEmitted == design = "intended" => OnlyEmitted(em, rv)
 Inv_InEmissionOrder == design = "intended" => InEmissionOrder(em, rv)
 Inv_DeliveredBeforeOutcome == design = "intended" => DeliveredBeforeOutcome(em, rv)
+Inv_DeliveredByEndOfStream == design = "intended" => DeliveredByEndOfStream(em, rv)
 Inv_ContentPreserved == design = "intended" => ContentPreserved(em, rv)
 NoWedge == (~ENABLED Next) => ClientDone
 \* model sanity: a call that was read to its end (unary, a finished iteration, a pipe session that was closed) lost nothing
